@@ -25,6 +25,9 @@ pub fn init() {
     engine::init();
 }
 
+/// Text (message and location) of the most recent panic caught in the code under test.
+pub static LAST_PANIC: std::sync::Mutex<String> = std::sync::Mutex::new(String::new());
+
 mod proj;
 mod walk;
 mod replay;
@@ -41,7 +44,9 @@ mod searchcmd;
 fn main() {
     // Panics inside the code under test are data: keep the default hook quiet and let
     // catch_unwind turn them into events.
-    std::panic::set_hook(Box::new(|_| {}));
+    std::panic::set_hook(Box::new(|info| {
+        *LAST_PANIC.lock().unwrap() = info.to_string();
+    }));
     init();
 
     let args: Vec<String> = std::env::args().collect();
